@@ -68,6 +68,14 @@ CHECKS = {
    design_ref="DESIGN.md §4 C12",
    note="Trusted: Kani 0.68/CBMC 6.11, the stand-ins in kani/c12world (part of the claim), the harness reference models, checks/c12_models.py. Bounds: |n| < 2^127, binaries of 0..10 bytes at the listed lengths, rope depth 1. integer_sqrt/gcd/sin/cos and num-bigint arithmetic are outside.",
  ),
+ "C06": dict(
+   engine="E2 Kani/CBMC harness world",
+   technique="Kani proof harnesses: one inductive step of each slot-accounting function (extracted verbatim from executor.rs at check time) from an arbitrary pre-state satisfying the representation invariant; counterexamples replayed by Kani concrete playback on the extracted real functions",
+   category="model_checking",
+   text="SLOT-ACCOUNTING KERNEL ONLY. For allocate_binary_data, retain, release and process_pending_free: from EVERY pre-state over 3 slots satisfying the representation invariant (freed => count 0; the reuse pool is duplicate-free and equals the freed set; the queue holds valid indices) and every argument, the invariant is re-established and: no slot with a positive count is reclaimed or handed out, a count reaching 0 is queued, exactly the queued slots still at 0 are reclaimed, no double free, the size limit is enforced. One inductive step covers call histories of any length for this kernel. NOT decided: that the interpreter, select state, REPL compaction and workers call retain/release the right number of times - a leak or premature free caused by mis-wired call sites (e.g. the select receiving slot) is not detected by this check.",
+   design_ref="DESIGN.md §4 C06",
+   note="Trusted: Kani 0.68/CBMC 6.11; stand-ins Value/BinaryData/Error in kani/c06world; the invariant as written in the harness. Bounds: 3 slots, queue of 0..3 entries, one level of tuple nesting.",
+ ),
 }
 
 NOT_APPLICABLE = {
